@@ -12,6 +12,7 @@ Definition oplain (o : option str) : Prop := match o with Some n => plain_ns n =
 Record wf_field_facts (D : mdesc) (f : fdesc) : Prop := {
   wff_kind : fd_kind f = KText \/ fd_kind f = KElement \/ fd_kind f = KAttribute;
   wff_name : plain_name (fd_name f) = true;
+  wff_gen : plain_name (derived_field_name f) = true;
   wff_xml_name : oplain_name (fd_xml_name f) = true;
   wff_ns : oplain_ns (fd_namespace f) = true;
   wff_type : ftype_ok D f = true;
@@ -73,7 +74,7 @@ Lemma field_local_nonempty D f : wf_field D f = true -> field_local f <> [].
 Proof.
   intros H. destruct (wf_field_inv D f H). unfold field_local.
   destruct (fd_xml_name f) as [[|x r]|]; try discriminate.
-  all: intros E; rewrite E in wff_name0; discriminate.
+  all: intros E; rewrite E in wff_gen0; discriminate.
 Qed.
 
 (* ---------------------------------------------------------------- build_var in the terms of the description *)
@@ -102,7 +103,10 @@ Lemma build_var_facts D i P f :
   wf_field D f = true -> oplain P -> var_facts f (some_ns P) (build_var i P f).
 Proof.
   intros Hwf HP. pose proof (wf_field_inv D f Hwf) as W. destruct W.
-  assert (Hloc : match fd_xml_name f with Some ((_ :: _) as n) => n | _ => fd_name f end = field_local f) by reflexivity.
+  assert (Hloc : match fd_xml_name f with
+                 | Some ((_ :: _) as n) => n
+                 | _ => match fd_gen_name f with Some ((_ :: _) as g) => g | _ => fd_name f end
+                 end = field_local f) by reflexivity.
   constructor; try reflexivity.
   - (* kind *)
     unfold build_var. cbn [v_kind]. unfold final_kind.
